@@ -1,4 +1,5 @@
 import PlaybackProofs.RecorderTable
+import PlaybackProofs.SourceAtoms
 /-! What exactly the `finally` block of the recording scope does: the sampling decision (C17) and the stored metadata (C18). -/
 namespace PlaybackModel.Recorder
 
@@ -8,6 +9,7 @@ theorem shouldSample_spec (s : St) (pr : Params) (f : Bool) :
     (shouldSample s pr f).1.draws = (if drawsUsed f pr = 0 then s.draws else s.draws.tail) ∧
     (shouldSample s pr f).1.clock = s.clock := by
   unfold shouldSample keepDecision drawsUsed
+  simp only [rateAlways_eq, drawKeeps_eq]
   cases f
   · by_cases hg : pr.rate.geOne = true
     · simp [hg]
